@@ -62,13 +62,13 @@ def run(tier, replay_file=None):
     R = common.Run("C14", tier, "model_checking")
     quick = tier == "quick"
     # 1. design level: exhaustive TLC run of the registry fragment, all invariants + the action property
-    mc = tlc.run("Abm", dict(consts(5 if quick else 7), L='99'), invariants=INVS, properties=["NeverReused"],
+    mc = tlc.run("Abm", dict(consts(5 if quick else 7), L='0'), invariants=INVS, properties=["NeverReused"],
                  view="View", spec="Spec")
     if mc.violation:
         R.violation("spec:" + mc.violation, {"trace": mc.trace[:3000]})
     R.cov["states"], R.cov["transitions"] = mc.distinct, mc.generated
     if not quick:
-        cv = tlc.run("Abm", dict(consts(4), L='99'), invariants=INVS, view="View", spec="Spec", coverage=True)
+        cv = tlc.run("Abm", dict(consts(4), L='0'), invariants=INVS, view="View", spec="Spec", coverage=True)
         R.cov["tlc_actions"] = {k: v[1] for k, v in cv.coverage.items() if v[1] > 0 and k not in ("Init",)}
         for must in ("Create", "DoDelete", "Configure", "Reset", "DoSetState"):
             if cv.coverage.get(must, (0, 0))[1] == 0:
@@ -105,7 +105,7 @@ def run(tier, replay_file=None):
             R.violation("a registry query failed or answered about another agent", failed)
         traces.append(ev)
     if traces and not R.violations:
-        c = dict(consts(100000), L='99')
+        c = dict(consts(100000), L='0')
         c["Traces"] = tlc.tla(traces)
         tv = tlc.run("AbmTrace", c, init="TraceInit", next="TraceNext", invariants=INVS, deadlock=True, workers=1, timeout=1800)
         R.add("traces_validated_against_impl", len(traces))
@@ -124,7 +124,7 @@ def run(tier, replay_file=None):
         import copy as _copy
         evil = _copy.deepcopy(traces[0][:10])
         evil[-1]["q"]["cnt"]["a"] += 1
-        c2 = dict(consts(100000), L='99'); c2["Traces"] = tlc.tla([evil])
+        c2 = dict(consts(100000), L='0'); c2["Traces"] = tlc.tla([evil])
         tv2 = tlc.run("AbmTrace", c2, init="TraceInit", next="TraceNext", invariants=INVS, deadlock=True, workers=1, timeout=600)
         if not tv2.violation:
             raise common.Machinery("negative control: corrupted registry trace accepted by AbmTrace")
